@@ -18,7 +18,7 @@ from enspara import ra
 PROPERTY = "C06"
 LEVEL = "exploration"
 RULE = ("A Hypothesis RuleBasedStateMachine starts from a generated RaggedArray (1..5 rows of length 1..5, equal or "
-        "unequal, one machine in five or so with one EMPTY row among scalar-element rows, int64 or float64, built from nested lists / list of arrays / flat data + lengths given as ndarray, "
+        "unequal, one machine in five or so with one EMPTY row among scalar-element rows, int64 or float64 (two in seven: int32, int16 or float32), built from nested lists / list of arrays / flat data + lengths given as ndarray, "
         "python ints or numpy ints) and applies up to 30 (thorough 50) operations drawn for the current state: "
         "element set, same-length row set, row-slice/row-list set from a RaggedArray, a[i, slice]=, a[rows, slice]= "
         "(scalar / per-row values / RaggedArray), a[rows, j]=, paired fancy set, a[i, cols]=, a[rows_arr, j]=, mask "
@@ -77,7 +77,7 @@ class Core:
         self.m = [arr(r, dtype) for r in rows]
         if path == "nested":
             self.a = ra.RaggedArray([list(arr(r, dtype).tolist()) for r in rows])
-            if dtype == "float64" and self.a.dtype != np.float64:
+            if self.a.dtype != np.dtype(dtype):
                 # nested python ints would give an int array: outside what we asked for, rebuild via arrays
                 self.a = ra.RaggedArray([arr(r, dtype) for r in rows])
         elif path == "arrays":
@@ -526,7 +526,9 @@ def init_op(draw):
         lens = [L] * n
     else:
         lens = [draw(st.integers(1, 5)) for _ in range(n)]
-    dtype = draw(st.sampled_from(["int64", "float64"]))
+    # (narrower element types hold the same small values; arithmetic on them follows numpy's rules for that type in the
+    # model as in the array)
+    dtype = draw(st.sampled_from(["int64", "float64", "int64", "float64", "int32", "int16", "float32"]))
     vec = draw(st.integers(0, 4)) == 0        # one machine in five holds rows of 2-vectors
     if not vec and n >= 2 and draw(st.integers(0, 3)) == 0:
         # an array that starts with an empty row somewhere (a trajectory that contributed no frame): "any ragged array"
@@ -535,10 +537,10 @@ def init_op(draw):
     for L in lens:
         if vec:
             vals = draw(st.lists(st.tuples(INT_VALS, INT_VALS).map(list), min_size=L, max_size=L))
-            rows.append([[x / 2 for x in v] for v in vals] if dtype == "float64" else vals)
+            rows.append([[x / 2 for x in v] for v in vals] if dtype.startswith("float") else vals)
         else:
             vals = draw(st.lists(INT_VALS, min_size=L, max_size=L))
-            rows.append([v / 2 for v in vals] if dtype == "float64" else vals)
+            rows.append([v / 2 for v in vals] if dtype.startswith("float") else vals)
     return {"op": "init", "rows": rows, "dtype": dtype, "vec": vec,
             # (nested python lists with an empty row are float64 to numpy: not what the model holds)
             "path": draw(st.sampled_from(["arrays", "flat_nd", "flat_pyints", "flat_npints", "alias_module"] if 0 in lens else
@@ -567,7 +569,7 @@ def make_machine(hooks):
                 raise
 
         def val(self, data, n=None):
-            s = INT_VALS if self.core.dtype == "int64" else INT_VALS.map(lambda v: v / 2)
+            s = INT_VALS if self.core.dtype.startswith("int") else INT_VALS.map(lambda v: v / 2)
             if n is None:
                 return data.draw(s)
             if self.core.vec:
@@ -792,14 +794,14 @@ def make_machine(hooks):
         @rule(data=st.data())
         def iop(self, data):
             other = data.draw(st.sampled_from(["scalar", "ragged", "ragged", "self"]))
-            s = data.draw(st.integers(-3, 3)) if self.core.dtype == "int64" else data.draw(st.integers(-6, 6)) / 2
+            s = data.draw(st.integers(-3, 3)) if self.core.dtype.startswith("int") else data.draw(st.integers(-6, 6)) / 2
             self.do({"op": "iop", "name": data.draw(st.sampled_from(["add", "sub", "mul"])), "other": other, "s": s,
                      "seed": data.draw(st.integers(0, 10 ** 6))})
 
         @precondition(lambda self: self.alive())
         @rule(data=st.data())
         def iop_2d(self, data):
-            s = data.draw(st.integers(-3, 3)) if self.core.dtype == "int64" else data.draw(st.integers(-6, 6)) / 2
+            s = data.draw(st.integers(-3, 3)) if self.core.dtype.startswith("int") else data.draw(st.integers(-6, 6)) / 2
             self.do({"op": "iop_2d", "name": data.draw(st.sampled_from(["add", "sub", "mul"])), "rows": self.row_sel(data),
                      "sl": self.col_slice(data), "s": s})
 
@@ -811,7 +813,7 @@ def make_machine(hooks):
             if other == "self" and name not in ("add", "sub", "mul", "eq", "ne", "lt", "le", "gt", "ge"):
                 other = "ragged"          # a / a, a % a, a ** a meet the zeros of the data
             s = data.draw(st.integers(1, 4))
-            if self.core.dtype == "float64":
+            if self.core.dtype.startswith("float"):
                 s = float(s) if name != "pow" else 2.0
             if name == "pow" and (np.concatenate(self.core.m) < 0).any():
                 s = 2.0
